@@ -448,33 +448,37 @@ enum Expect {
     Rollback,
     /// documented: authentication must reject the document on every read path
     MustReject,
-    /// outside the single-site quantifier and inside the documented compatibility-mode downgrade
-    /// window (a document without any authentication-era field is indistinguishable from genuine
-    /// legacy metadata): outcomes are counted, not asserted
+    /// the installed document carries no authentication-era field at all and the store runs in
+    /// compatibility mode: the documented downgrade window ("fully stripped ones are
+    /// indistinguishable from genuine legacy metadata"; strict mode closes it). Outcomes are
+    /// counted and sampled, not asserted
     Undecidable,
 }
 
-/// How the store's documented rules see an unauthenticated installed document.
+/// How the store's documented rules (verify_metadata docs, with_strict_metadata_auth docs) see an
+/// installed metadata document, judged on the fields its struct decoder would see.
 #[derive(Clone, Copy, Debug, PartialEq)]
-enum Downgrade {
-    /// not a downgrade tamper (or the document does not decode)
-    No,
-    /// seal missing but `av` or `g` still present: "always rejected"
-    KeepsV1,
-    /// no an/at/av/g at all: looks like genuine legacy metadata (accepted in compatibility mode by
-    /// design, "rejected outright" in strict mode)
+enum SealView {
+    /// both `an` and `at` present (the seal is then checked cryptographically), or the bytes do
+    /// not decode at all
+    SealedOrUndecodable,
+    /// seal incomplete or missing while `av` or `g` is present: "always rejected"
+    MissingSealWithV1Fields,
+    /// none of an/at/av/g: indistinguishable from genuine pre-auth legacy metadata - accepted in
+    /// compatibility mode by documented design (the downgrade window), "rejected outright" in
+    /// strict mode
     LegacyLooking,
 }
 
-fn downgrade_view(doc: &[u8]) -> Downgrade {
-    let Some(m) = cbor_decode(doc) else { return Downgrade::No };
-    let has = |f: &str| field(&m, f).map(|v| !matches!(v, Cbor::Null)).unwrap_or(false);
-    if has("an") || has("at") {
-        Downgrade::No
-    } else if has("av") || has("g") {
-        Downgrade::KeepsV1
+fn seal_view(doc: &[u8]) -> SealView {
+    let Some(m) = struct_view(doc) else { return SealView::SealedOrUndecodable };
+    let has = |f: &str| m.contains_key(f);
+    if has("an") && has("at") {
+        SealView::SealedOrUndecodable
+    } else if has("an") || has("at") || has("av") || has("g") {
+        SealView::MissingSealWithV1Fields
     } else {
-        Downgrade::LegacyLooking
+        SealView::LegacyLooking
     }
 }
 
@@ -486,14 +490,12 @@ struct Tamper {
     /// which keys get the full read battery
     full: [bool; 2],
     expect: [Expect; 2],
-    /// (key index, view, more than one site changed) for tampers that remove the seal
-    downgrade: Option<(usize, Downgrade, bool)>,
 }
 
 fn t1(class: &'static str, what: String, path: &str, bytes: Vec<u8>, k: usize) -> Tamper {
     let mut full = [false; 2];
     full[k] = true;
-    Tamper { class, what, edits: vec![(path.to_string(), Some(bytes))], full, expect: [Expect::Normal; 2], downgrade: None }
+    Tamper { class, what, edits: vec![(path.to_string(), Some(bytes))], full, expect: [Expect::Normal; 2] }
 }
 
 fn chunk_ranges(len: usize, c: usize) -> Vec<Range<usize>> {
@@ -559,9 +561,7 @@ fn enumerate_tampers(s: &State, rng: &mut Rng, out: &mut Vec<Tamper>) {
                 if v != ks.meta_new[pos] && (v ^ ks.meta_new[pos]).count_ones() > 1 {
                     let mut b = ks.meta_new.clone();
                     b[pos] = v;
-                    let view = downgrade_view(&b);
-                    let mut t = t1("substitute_byte_metadata", format!("{} byte {pos} := {v:#04x}", ks.meta_path), &ks.meta_path, b, k);
-                    t.downgrade = Some((k, view, false));
+                    let t = t1("substitute_byte_metadata", format!("{} byte {pos} := {v:#04x}", ks.meta_path), &ks.meta_path, b, k);
                     out.push(t);
                 }
             }
@@ -573,7 +573,6 @@ fn enumerate_tampers(s: &State, rng: &mut Rng, out: &mut Vec<Tamper>) {
             edits: vec![(ks.pay_new_path.clone(), None)],
             full: [k == 0, k == 1],
             expect: [Expect::Normal; 2],
-            downgrade: None,
         });
         // chunk i <-> chunk j inside the payload
         let chunks = chunk_ranges(ks.pay_new.len(), c);
@@ -616,7 +615,6 @@ fn enumerate_tampers(s: &State, rng: &mut Rng, out: &mut Vec<Tamper>) {
             edits: vec![(ks.meta_path.clone(), Some(ks.meta_old.clone())), (ks.pay_old_path.clone(), None)],
             full: [k == 0, k == 1],
             expect: [Expect::Normal; 2],
-            downgrade: None,
         };
         // the listings consult the (validly sealed, previously committed) document alone: for
         // them this is a rollback of everything they look at
@@ -629,7 +627,6 @@ fn enumerate_tampers(s: &State, rng: &mut Rng, out: &mut Vec<Tamper>) {
             edits: vec![(ks.meta_path.clone(), Some(ks.meta_old.clone())), (ks.pay_old_path.clone(), Some(ks.pay_new.clone()))],
             full: [k == 0, k == 1],
             expect: [Expect::Normal; 2],
-            downgrade: None,
         };
         // the listings consult the (validly sealed, previously committed) document alone: for
         // them this is a rollback of everything they look at
@@ -668,7 +665,6 @@ fn enumerate_tampers(s: &State, rng: &mut Rng, out: &mut Vec<Tamper>) {
                 ],
                 full: [k == 0, k == 1],
                 expect: [Expect::Normal; 2],
-            downgrade: None,
             };
             t.expect[k] = Expect::MustReject;
             out.push(t);
@@ -680,9 +676,7 @@ fn enumerate_tampers(s: &State, rng: &mut Rng, out: &mut Vec<Tamper>) {
                 ("removed", cbor_encode(&without(&map, &[n.as_str()]))),
                 (":= null", cbor_encode(&with_value(&map, n, Cbor::Null))),
             ] {
-                let view = downgrade_view(&doc);
-                let mut t = t1("strip_field", format!("{} field `{n}` {how}", ks.meta_path), &ks.meta_path, doc, k);
-                t.downgrade = Some((k, view, false));
+                let t = t1("strip_field", format!("{} field `{n}` {how}", ks.meta_path), &ks.meta_path, doc, k);
                 out.push(t);
             }
         }
@@ -697,20 +691,18 @@ fn enumerate_tampers(s: &State, rng: &mut Rng, out: &mut Vec<Tamper>) {
         ];
         for combo in combos {
             let stripped = cbor_encode(&without(&map, combo));
-            let view = downgrade_view(&stripped);
-            let class = if view == Downgrade::KeepsV1 { "strip_auth_keeping_v1_fields" } else { "strip_auth_full_downgrade" };
-            let mut t = t1(class, format!("{} fields {combo:?} removed", ks.meta_path), &ks.meta_path, stripped.clone(), k);
-            t.downgrade = Some((k, view, false));
+            let view = seal_view(&stripped);
+            let class = if view == SealView::MissingSealWithV1Fields { "strip_auth_keeping_v1_fields" } else { "strip_auth_full_downgrade" };
+            let t = t1(class, format!("{} fields {combo:?} removed", ks.meta_path), &ks.meta_path, stripped.clone(), k);
             out.push(t);
             // full downgrade plus the ciphertext offered at the legacy location (two objects)
-            if view == Downgrade::LegacyLooking {
+            if view == SealView::LegacyLooking {
                 out.push(Tamper {
                     class: "strip_auth_full_downgrade_with_legacy_payload",
                     what: format!("{} fields {combo:?} removed, data/{} := current payload", ks.meta_path, ks.key),
                     edits: vec![(ks.meta_path.clone(), Some(stripped)), (format!("data/{}", ks.key), Some(ks.pay_new.clone()))],
                     full: [k == 0, k == 1],
                     expect: [Expect::Normal; 2],
-                    downgrade: Some((k, view, false)),
                 });
             }
         }
@@ -723,9 +715,7 @@ fn enumerate_tampers(s: &State, rng: &mut Rng, out: &mut Vec<Tamper>) {
                 for bit in 0..8 {
                     let mut b = stripped.clone();
                     b[pos] ^= 1 << bit;
-                    let view = downgrade_view(&b);
-                    let mut t = t1("strip_seal_then_bitflip", format!("{} seal removed, byte {pos} bit {bit}", ks.meta_path), &ks.meta_path, b, k);
-                    t.downgrade = Some((k, view, true));
+                    let t = t1("strip_seal_then_bitflip", format!("{} seal removed, byte {pos} bit {bit}", ks.meta_path), &ks.meta_path, b, k);
                     out.push(t);
                 }
             }
@@ -783,7 +773,6 @@ fn enumerate_tampers(s: &State, rng: &mut Rng, out: &mut Vec<Tamper>) {
         edits: vec![(a.pay_new_path.clone(), Some(b.pay_new.clone())), (b.pay_new_path.clone(), Some(a.pay_new.clone()))],
         full: [true, true],
         expect: [Expect::Normal; 2],
-            downgrade: None,
     });
     out.push(Tamper {
         class: "swap_metadata_between_keys",
@@ -791,7 +780,6 @@ fn enumerate_tampers(s: &State, rng: &mut Rng, out: &mut Vec<Tamper>) {
         edits: vec![(a.meta_path.clone(), Some(b.meta_new.clone())), (b.meta_path.clone(), Some(a.meta_new.clone()))],
         full: [true, true],
         expect: [Expect::MustReject; 2],
-        downgrade: None,
     });
     out.push(Tamper {
         class: "swap_whole_objects_between_keys",
@@ -804,7 +792,6 @@ fn enumerate_tampers(s: &State, rng: &mut Rng, out: &mut Vec<Tamper>) {
         ],
         full: [true, true],
         expect: [Expect::MustReject; 2],
-        downgrade: None,
     });
     // each key's generations exchanged (payload objects only)
     for (k, ks) in s.keys.iter().enumerate() {
@@ -814,7 +801,6 @@ fn enumerate_tampers(s: &State, rng: &mut Rng, out: &mut Vec<Tamper>) {
             edits: vec![(ks.pay_new_path.clone(), Some(ks.pay_old.clone())), (ks.pay_old_path.clone(), Some(ks.pay_new.clone()))],
             full: [k == 0, k == 1],
             expect: [Expect::Normal; 2],
-            downgrade: None,
         });
     }
 }
@@ -1147,16 +1133,19 @@ async fn run_tamper(ctx: &StateCtx<'_>, t: &Tamper, idx: usize, warm: bool, st: 
         Some(w) => w,
         None => build_store(Arc::new(fork), s.chunk, ctx.strict),
     };
-    // what the documented rules say about an installed document without a seal
+    // what the documented rules say about an installed document whose seal is not (fully) there
     let mut expect = t.expect;
-    if let Some((k, view, two_site)) = t.downgrade {
-        expect[k] = match view {
-            Downgrade::No => expect[k],
-            Downgrade::KeepsV1 => Expect::MustReject,
-            Downgrade::LegacyLooking if ctx.strict => Expect::MustReject,
-            Downgrade::LegacyLooking if two_site => Expect::Undecidable,
-            Downgrade::LegacyLooking => expect[k],
-        };
+    for (path, e) in &t.edits {
+        let (Some(b), Some(k)) = (e, s.keys.iter().position(|ks| &ks.meta_path == path)) else { continue };
+        match seal_view(b) {
+            SealView::SealedOrUndecodable => {}
+            SealView::MissingSealWithV1Fields => expect[k] = Expect::MustReject,
+            SealView::LegacyLooking if ctx.strict => expect[k] = Expect::MustReject,
+            SealView::LegacyLooking => {
+                expect[k] = Expect::Undecidable;
+                st.count(&format!("compat_downgrade_window_reached_by:{}", t.class));
+            }
+        }
     }
     if warm {
         st.count(&format!("tamper_warm_instance:{}", t.class));
@@ -1191,6 +1180,10 @@ async fn run_tamper(ctx: &StateCtx<'_>, t: &Tamper, idx: usize, warm: bool, st: 
         per_key[k].push((name, o));
     }
     for k in 0..2 {
+        // the copy path of a key whose objects were not touched adds nothing but a metadata seal
+        if !t.full[k] {
+            continue;
+        }
         let before = probe.outcomes.len();
         copy_then_read(&store, &s.keys[k], k, expect[k] == Expect::Rollback, &mut probe).await;
         per_key[k].extend(probe.outcomes[before..].to_vec());
@@ -1227,9 +1220,16 @@ async fn run_tamper(ctx: &StateCtx<'_>, t: &Tamper, idx: usize, warm: bool, st: 
                     all_original = false;
                     st.count("rollback_whole_key_previous_version_served");
                 }
-                Outcome::Wrong(_) if expect[k] == Expect::Undecidable => {
+                Outcome::Wrong(w) if expect[k] == Expect::Undecidable => {
                     all_original = false;
                     st.count("compat_downgrade_window_forged_legacy_document_served");
+                    st.count(&format!("compat_downgrade_window_served_wrong_result:{class}:{path_kind}"));
+                    if class != "strip_seal_then_bitflip" {
+                        let (what, w, key) = (t.what.clone(), w.clone(), ks.key.clone());
+                        let edits = describe_edits(s, t);
+                        st.sample(move || json!({"monitor": "compat_mode_downgrade_window (not asserted)", "tamper": what,
+                            "key": key, "read_path": path_kind, "got": w, "edits": edits}));
+                    }
                 }
                 Outcome::Wrong(w) => {
                     all_original = false;
@@ -1691,7 +1691,7 @@ fn main() {
     run.assume("one AES-256-GCM key for the whole run (the nonce monitor keeps one table over all sections)");
     run.assume("object keys/paths are stored in clear by design (docs 2): only object content counts as plaintext");
     run.assume("whole-key rollback (previous metadata document over a still existing previous payload) is not decidable by the store: counted, not asserted");
-    run.assume("full auth downgrade (an, at, av, g all stripped) is accepted as legacy metadata in compatibility mode by documented design; it is judged by the byte oracle only");
+    run.assume("compatibility mode (the default) accepts a metadata document without any of an/at/av/g as genuine legacy metadata by documented design (downgrade window, closed by with_strict_metadata_auth): tampers whose installed document looks like that are counted, not asserted, in compatibility mode and must be rejected on every read path in strict mode");
     let t = run.tier;
     let chunks: Vec<u64> = t.pick(vec![1, 7], vec![1, 7, 16]);
     let n_states = (chunks.len() * 6 * METHODS.len()) as u64;
